@@ -7,7 +7,7 @@ Open Scope N_scope.
 
 Lemma of_to_bits32 z : (- 2 ^ 31 <= z < 2 ^ 31)%Z -> of_bits 32 (to_bits 32 z) = z.
 Proof.
-  unfold of_bits, to_bits. intros Hz.
+  rewrite to_bits_mod. unfold of_bits. intros Hz.
   change (Z.of_N 32) with 32%Z. change (2 ^ (32 - 1)) with 2147483648.
   change (2 ^ 31)%Z with 2147483648%Z in Hz.
   change (2 ^ 32)%Z with 4294967296%Z.
@@ -24,7 +24,7 @@ Qed.
 
 Lemma to_bits32_lt z : to_bits 32 z < 2 ^ 32.
 Proof.
-  unfold to_bits. change (Z.of_N 32) with 32%Z.
+  rewrite to_bits_mod. change (Z.of_N 32) with 32%Z.
   change (2 ^ 32)%Z with 4294967296%Z. change (2 ^ 32) with 4294967296.
   assert (Hm : (0 <= z mod 4294967296 < 4294967296)%Z) by (apply Z.mod_pos_bound; lia).
   lia.
@@ -33,7 +33,7 @@ Qed.
 (* `x as i64 as usize` is the identity on 64-bit patterns *)
 Lemma to_of_bits64 x : x < 2 ^ 64 -> to_bits 64 (of_bits 64 x) = x.
 Proof.
-  unfold of_bits, to_bits. intros Hx.
+  rewrite to_bits_mod. unfold of_bits. intros Hx.
   change (Z.of_N 64) with 64%Z. change (2 ^ (64 - 1)) with 9223372036854775808.
   change (2 ^ 64) with 18446744073709551616 in Hx.
   change (2 ^ 64)%Z with 18446744073709551616%Z.
@@ -94,7 +94,7 @@ Proof. eexists. apply read_sint_app, le_enc_length. Qed.
 
 Lemma as_usize_of_N x : x < 2 ^ 64 -> as_usize (Z.of_N x) = x.
 Proof.
-  intros Hx. unfold as_usize, to_bits. change (Z.of_N 64) with 64%Z.
+  intros Hx. unfold as_usize. rewrite to_bits_mod. change (Z.of_N 64) with 64%Z.
   change (2 ^ 64) with 18446744073709551616 in Hx. change (2 ^ 64)%Z with 18446744073709551616%Z.
   rewrite Z.mod_small by lia. lia.
 Qed.
@@ -116,6 +116,13 @@ Qed.
 
 (* ---- vertices ---- *)
 
+Lemma bounded_len_spec s : forall n, bounded_len n s = length s \/ N.of_nat (bounded_len n s) = n.
+Proof.
+  induction s as [|b t IH]; intros n; cbn [bounded_len length]; [now left|].
+  destruct (N.eqb_spec n 0) as [->|Hn]; [now right|].
+  destruct (IH (n - 1)) as [H|H]; [left; now rewrite H|right; lia].
+Qed.
+
 Lemma read_vertex_ser dim cs r rest :
   N.of_nat (length cs) = dim -> Forall u64_ok cs -> i64_ok r ->
   read_vertex true w4 dim (ser_node (cs, r) ++ rest) = FOk ((cs, r), rest).
@@ -124,13 +131,46 @@ Proof.
   rewrite <- Hd, <- app_assoc.
   rewrite (read_items_roundtrip (le_enc 8) (read_float true 8)).
   - now rewrite read_i64.
-  - rewrite app_length.
-    pose proof (flat_map_length_ge (le_enc 8) cs ltac:(intros x; rewrite le_enc_length; lia)). lia.
+  - pose proof (flat_map_length_ge (le_enc 8) cs ltac:(intros x; rewrite le_enc_length; lia)) as Hge.
+    destruct (bounded_len_spec (flat_map (le_enc 8) cs ++ i64_bytes r ++ rest) (N.of_nat (length cs))) as [H|H].
+    + rewrite H, app_length. lia.
+    + lia.
   - eapply Forall_impl; [|exact Hcs]. intros x Hx r0. now apply read_float8.
 Qed.
 
 Lemma ser_node_length n : (1 <= length (ser_node n))%nat.
 Proof. unfold ser_node, i64_bytes. rewrite app_length, le_enc_length. lia. Qed.
+
+(* the linear [zip_chunks_exact] of the model = the direct transcription of
+   chunks_exact(d).zip(refs) with firstn / skipn *)
+Fixpoint zip_chunks_exact_ref (d : N) (cs : list N) (rs : list Z) : list (list N * Z) :=
+  match rs with
+  | [] => []
+  | r :: rs' =>
+    if N.of_nat (length cs) <? d then []
+    else (firstn (N.to_nat d) cs, r) :: zip_chunks_exact_ref d (skipn (N.to_nat d) cs) rs'
+  end.
+
+Lemma split_at_spec s : forall n,
+  split_at n s = if N.of_nat (length s) <? n then None
+                 else Some (firstn (N.to_nat n) s, skipn (N.to_nat n) s).
+Proof.
+  induction s as [|b t IH]; intros n.
+  - cbn [split_at length]. destruct (N.eqb_spec n 0) as [->|Hn]; [reflexivity|].
+    destruct (N.ltb_spec (N.of_nat 0) n); [reflexivity|lia].
+  - cbn [split_at]. destruct (N.eqb_spec n 0) as [->|Hn]; [reflexivity|].
+    rewrite IH. cbn [length].
+    replace (N.to_nat n) with (S (N.to_nat (n - 1))) by lia. cbn [firstn skipn].
+    destruct (N.ltb_spec (N.of_nat (length t)) (n - 1)); destruct (N.ltb_spec (N.of_nat (S (length t))) n);
+      try lia; reflexivity.
+Qed.
+
+Lemma zip_chunks_exact_ref_eq d : forall rs cs, zip_chunks_exact d cs rs = zip_chunks_exact_ref d cs rs.
+Proof.
+  induction rs as [|r rs IH]; intros cs; [reflexivity|].
+  cbn [zip_chunks_exact zip_chunks_exact_ref]. rewrite split_at_spec.
+  destruct (N.of_nat (length cs) <? d); [reflexivity|]. now rewrite IH.
+Qed.
 
 (* Mesh::nodes() on a well-shaped mesh *)
 Lemma zip_chunks_exact_spec d : d <> 0 -> forall rs cs,
@@ -139,7 +179,8 @@ Lemma zip_chunks_exact_spec d : d <> 0 -> forall rs cs,
   flat_map fst ns = cs /\ map snd ns = rs /\ Forall (fun n => N.of_nat (length (fst n)) = d) ns
   /\ length ns = length rs.
 Proof.
-  intros Hd. induction rs as [|r rs IH]; intros cs Hlen; cbn [zip_chunks_exact].
+  intros Hd rs cs. rewrite zip_chunks_exact_ref_eq. revert cs.
+  induction rs as [|r rs IH]; intros cs Hlen; cbn [zip_chunks_exact_ref].
   - cbn [length] in Hlen. destruct cs; [|cbn [length] in Hlen; lia].
     cbn. repeat split; auto.
   - cbn [length] in Hlen.
@@ -233,9 +274,7 @@ Proof.
   rewrite <- Hl, <- app_assoc.
   rewrite (read_items_roundtrip (fun n => le_enc 8 (n + 1)) (read_node true w4)).
   - now rewrite read_i64.
-  - rewrite app_length.
-    pose proof (flat_map_length_ge (fun n => le_enc 8 (n + 1)) ns
-                  ltac:(intros x; cbv beta; rewrite le_enc_length; lia)). lia.
+  - lia.
   - eapply Forall_impl; [|exact Hn]. intros x Hx r0. now apply read_node_enc.
 Qed.
 
@@ -406,9 +445,12 @@ Proof.
       rewrite ser_blocks_nonvertex in H by exact Hty. cbv zeta in H.
       destruct (ser_elems _) as [body| | |]; try discriminate.
       destruct (ser_blocks _ t) as [rest'| | |] eqn:Es; try discriminate.
-      apply IH in Es. injection H as <-.
-      cbn [drop_vertex_blocks filter b_ty]. rewrite Ev. cbn [negb length].
-      rewrite ?app_length. fold (drop_vertex_blocks t). lia.
+      apply IH in Es.
+      assert (Hl : (1 + length rest' <= length bytes)%nat).
+      { apply (f_equal (fun r => match r with FOk b => length b | _ => O end)) in H. cbv beta iota in H.
+        rewrite <- H. unfold i32_bytes. rewrite !app_length, !le_enc_length. lia. }
+      cbn [drop_vertex_blocks filter b_ty]. rewrite Ev. cbn [negb]. fold (drop_vertex_blocks t).
+      change (length (?x :: ?l)) with (S (length l)). lia.
 Qed.
 
 (* ---- the whole file ---- *)
@@ -524,7 +566,8 @@ Proof.
   unfold serialize_binary. destruct (m_dim m =? 0); [discriminate|].
   destruct (ser_blocks _ _) as [bl| | |]; try discriminate.
   destruct code_tables as (_ & _ & _ & _ & C5 & _). rewrite C5.
-  intros H. injection H as <-. eexists. reflexivity.
+  intros H. apply (f_equal (fun r => match r with FOk b => b | _ => [] end)) in H. cbv beta iota in H.
+  rewrite <- H. eexists. reflexivity.
 Qed.
 
 Theorem sniff_binary_written_proof : forall m bytes n,
@@ -611,10 +654,11 @@ Lemma read_vertex_spec le w dim s : widths_pos w ->
   forall x s1, read_vertex le w dim s = FOk (x, s1) -> (length s1 < length s)%nat.
 Proof.
   intros [Hi Hf]. unfold read_vertex.
-  pose proof (read_items_fuel (read_float le (w_float w))
+  pose proof (read_items_fuel2 (read_float le (w_float w))
     ltac:(intros s0 x s1 H; apply read_float_consumes in H; lia)
-    ltac:(intros s0; apply read_float_fuel) (S (length s)) dim s ltac:(lia)) as Hfuel.
-  destruct (read_items (S (length s)) dim (read_float le (w_float w)) s) as [[cs s1]| | |] eqn:E;
+    ltac:(intros s0; apply read_float_fuel) (S (bounded_len dim s)) dim s
+    ltac:(destruct (bounded_len_spec s dim); lia)) as Hfuel.
+  destruct (read_items (S (bounded_len dim s)) dim (read_float le (w_float w)) s) as [[cs s1]| | |] eqn:E;
     try (split; [discriminate|intros; discriminate]); [|congruence].
   apply (read_items_le (read_float le (w_float w))
     ltac:(intros s0 x s1' H; apply read_float_consumes in H; lia)) in E.
@@ -642,10 +686,15 @@ Lemma read_element_spec le w npe s : widths_pos w ->
   forall x s1, read_element le w npe s = FOk (x, s1) -> (length s1 < length s)%nat.
 Proof.
   intros Hw. unfold read_element.
-  pose proof (read_items_fuel (read_node le w)
-    ltac:(intros s0 x s1 H; now apply (read_node_spec le w s0 Hw) in H)
-    ltac:(intros s0; apply (read_node_spec le w s0 Hw)) (S (length s)) (N.of_nat npe) s ltac:(lia)) as Hfuel.
-  destruct (read_items (S (length s)) (N.of_nat npe) (read_node le w) s) as [[ns s1]| | |] eqn:E;
+  assert (Hfuel : read_items npe (N.of_nat npe) (read_node le w) s <> FOutOfFuel).
+  { clear. revert s. induction npe as [|k IH]; intros s; [discriminate|].
+    cbn [read_items]. destruct (N.eqb_spec (N.of_nat (S k)) 0) as [|_]; [discriminate|].
+    pose proof (read_sint_fuel le (w_int w) s) as Hs. unfold read_node at 1.
+    destruct (read_sint le (w_int w) s) as [[v r]| | |]; try discriminate; [|congruence].
+    destruct (as_usize v =? 0); [discriminate|].
+    replace (N.of_nat (S k) - 1) with (N.of_nat k) by lia. specialize (IH r).
+    destruct (read_items k (N.of_nat k) (read_node le w) r) as [[? ?]| | |]; try discriminate. congruence. }
+  destruct (read_items npe (N.of_nat npe) (read_node le w) s) as [[ns s1]| | |] eqn:E;
     try (split; [discriminate|intros; discriminate]); [|congruence].
   apply (read_items_le (read_node le w)
     ltac:(intros s0 x s1' H; apply (read_node_spec le w s0 Hw) in H; lia)) in E.
